@@ -1,8 +1,9 @@
 (* Property C15: truncation honours its constraints and reports its error exactly.
-   Only statements; every proof is `exact <lemma from Proofs/TruncateP.v>`. *)
+   Only statements; every proof is `exact <lemma from Proofs/*.v>`. *)
 From TenpyV Require Import Base.Prelude Base.PyLib Model.Truncate Proofs.TruncateP.
 From TenpyV Require Import Gen.G_truncation Proofs.TruncateGenP.
 From TenpyV Require Import Model.TruncBook Model.TruncPriority Proofs.TruncBookP Proofs.TruncPriorityP.
+From TenpyV Require Import Model.TruncBookCheck Proofs.TruncBookCheckP.
 From Coq Require Import QArith.
 Open Scope Z_scope.
 
@@ -125,9 +126,30 @@ Proof. vm_compute. auto. Qed.
    without square roots: the two roots of the code, r = np.linalg.norm(S) and nn = norm_new, are
    universally quantified and constrained by r*r == sum S^2, nn*nn == sum S[mask]^2.
    Tie to the code: svd_book_sq / eigh_book_z / te_* are compared with the implementation in
-   harness/c15.py (streams `book`, `err-arith`); svd_theta_book / eigh_rho_book (the versions with
-   the roots as inputs) are tied to the code by reading only, and to the integer model by the
-   theorems below (mask := r_mask (truncate xs o) of the correspondence-checked Model/Truncate.v). *)
+   harness/c15.py (streams `book` (1e-9), `err-exact` (exact)).
+   svd_theta_book / eigh_rho_book (the versions with the roots as inputs) are EXECUTED against
+   truncation.svd_theta / truncation.eigh_rho in streams `svd-exact` / `eigh-exact`
+   (harness/c15_streams.py, checkers check_svd_theta_exact / check_eigh_rho_exact of Model/TruncBookCheck.v):
+   permutation-planted integer spectra with rational roots (Pythagorean tuples with a Pythagorean prefix such as
+   (12, 9 | 8) -> 15 -> 17, eigenvalue lists with kept/total a rational square, zeros, scalings 2^-k); LAPACK returns the
+   planted values bit for bit on these matrices (the harness verifies this per case and skips the few cases where it
+   does not); the harness supplies r and nn as exact rationals, Coq tests the hypotheses of the two bookkeeping
+   theorems (svd_hyps / eigh_hyps: r, nn > 0, r*r == sum S0^2, nn*nn == kept weight), evaluates the model and compares
+   with the exact values of the implementation's floats:
+     - by exact equality when every intermediate and output of the model is a dyadic rational (about a third of the
+       cases: sum of squares a power of 4, kept part m * (power-of-4 tuple)), the decision being made inside Coq;
+     - otherwise within |impl - model| <= 2^-50 |model| (svd_theta: S, renormalization, eps) resp. 2^-49 (eigh_rho: W,
+       eps).  This part is APPROXIMATE: S0/r such as 12/17 is not a float, the code rounds S/r, the squares, the norm
+       and the final quotient; observed deviation <= 4.1 * 2^-53.  A rewrite of the code that only changes the rounding
+       (S * (1/new_norm) instead of S / new_norm) is therefore not flagged.
+   T15_svd_exact_check_sound / T15_eigh_exact_check_sound: the hypotheses the checkers test are those of
+   T15_svd_theta_bookkeeping / T15_eigh_rho_bookkeeping, so the conclusions hold for the model value of every case the
+   streams accept.  The link to the integer model is by the theorems below (mask := r_mask (truncate xs o) of the
+   correspondence-checked Model/Truncate.v).
+   decompose_theta_qr_based / _qr_theta_Y0 / _eig_based_svd have NO Coq model: streams `qr-direct` / `qr-engine` are an
+   oracle only (dense numpy: reported eps == squared relative error with the reported renormalization, eps >= optimum of
+   the rank, renormalization^2 == |theta|^2 (1 - eps), S normalised, declared A / B forms isometric, Th form normalised,
+   engine total == sum of the reported errors). *)
 Open Scope Q_scope.
 
 (* any mask: S_new_i * renormalization_new = S_old_i on every kept index, |S_new| = 1,
@@ -198,6 +220,46 @@ Theorem T15_eigh_rho_bookkeeping_z : forall ws mask,
   snd (eigh_book_z ws mask) == inject_Z (sumZ (select (nmask mask) ws)) / inject_Z (sumZ ws) /\
   Forall2 (fun w w0 => w * (1 - snd (eigh_book_z ws mask)) == inject_Z w0) (fst (eigh_book_z ws mask)) (select mask ws).
 Proof. exact eigh_book_z_ok. Qed.
+
+(* every case accepted by the correspondence checkers of Model/TruncBookCheck.v (streams svd-exact / eigh-exact) satisfies
+   the hypotheses of the two bookkeeping theorems; hence their conclusions for the model value the implementation's
+   floats were compared with *)
+Theorem T15_svd_exact_check_sound : forall S0 r mask nn, svd_hyps S0 r mask nn = true ->
+  let out := svd_theta_book S0 r mask nn in
+  Forall2 (fun s x => s * so_renorm out == x) (so_S out) (select mask S0) /\
+  sumQ (map qsq (so_S out)) == 1 /\
+  so_eps out == sumQ (map qsq (select (nmask mask) S0)) / sumQ (map qsq S0) /\
+  qsq (so_renorm out) == sumQ (map qsq (select mask S0)) /\
+  so_eps out == 1 - qsq (so_renorm out) / (r * r).
+Proof. exact svd_check_sound. Qed.
+
+Theorem T15_eigh_exact_check_sound : forall W0 mask nn, eigh_hyps W0 mask nn = true ->
+  let out := eigh_rho_book W0 mask nn in
+  sumQ (eo_W out) == sumQ W0 /\
+  eo_eps out == sumQ (select (nmask mask) W0) / sumQ W0 /\
+  Forall2 (fun w w0 => w * (1 - eo_eps out) == w0) (eo_W out) (select mask W0).
+Proof. exact eigh_check_sound. Qed.
+
+(* non-vacuity + what a case looks like: (12, 9 | 8), r = 17, nn = 15/17; impl floats S = 0.8 (rounded), 0.6 (rounded),
+   renormalization = 15, eps = 64/289 (rounded) are accepted by the enclosure; a deviation of 2^-46 is rejected;
+   (3,3,3,3 | 3,3,3,1)/8 is compared by exact equality: S = 1/2 four times, renormalization = 3/4, eps = 7/16 *)
+Example T15_svd_exact_check_example :
+  svd_hyps [12; 9; 8] 17 [true; true; false] (15 # 17) = true /\
+  svd_all_dyadic [12; 9; 8] 17 [true; true; false] (15 # 17) = false /\
+  check_svd_theta_exact ([(12, 1); (9, 1); (8, 1)], (17, 1), [true; true; false], (15, 17), false,
+     ([(3602879701896397, 4503599627370496); (5404319552844595, 9007199254740992)], (15, 1),
+      (3989347766805699, 18014398509481984)))%Z = true /\
+  check_svd_theta_exact ([(12, 1); (9, 1); (8, 1)], (17, 1), [true; true; false], (15, 17), false,
+     ([(3602879701896397 + 64, 4503599627370496); (5404319552844595, 9007199254740992)], (15, 1),
+      (3989347766805699, 18014398509481984)))%Z = false /\
+  check_svd_theta_exact ([(3, 8); (3, 8); (3, 8); (3, 8); (3, 8); (3, 8); (3, 8); (1, 8)], (1, 1),
+     [true; true; true; true; false; false; false; false], (3, 4), true,
+     ([(1, 2); (1, 2); (1, 2); (1, 2)], (3, 4), (7, 16)))%Z = true /\
+  check_svd_theta_exact ([(3, 8); (3, 8); (3, 8); (3, 8); (3, 8); (3, 8); (3, 8); (1, 8)], (1, 1),
+     [true; true; true; true; false; false; false; false], (3, 4), true,
+     ([(1, 2); (1, 2); (1, 2); (4503599627370497, 9007199254740992)], (3, 4), (7, 16)))%Z = false /\
+  eigh_hyps [144; 81; 64] [true; true; false] (15 # 17) = true.
+Proof. vm_compute. repeat split; reflexivity. Qed.
 
 (* TruncationError: err_1 + ... + err_k has eps = sum eps_i, ov = product ov_i (every list);
    from_norm(new, old) = from_S(discarded, old) when old^2 = new^2 + discarded weight *)
@@ -270,6 +332,8 @@ Print Assumptions T15_svd_theta_bookkeeping_sq.
 Print Assumptions T15_eigh_rho_bookkeeping.
 Print Assumptions T15_eigh_rho_truncate.
 Print Assumptions T15_eigh_rho_bookkeeping_z.
+Print Assumptions T15_svd_exact_check_sound.
+Print Assumptions T15_eigh_exact_check_sound.
 Print Assumptions T15_err_add.
 Print Assumptions T15_err_from_norm.
 Print Assumptions T15_err_from_norm_1.
